@@ -14,7 +14,10 @@
 (* record, marker, ... on the stream.  Whether the target is a terminal is    *)
 (* read when an appender is built: after the stream has been re-pointed (at a *)
 (* file, in the replay) an appender built then is Writes / Coloured of the    *)
-(* row with that stream not a terminal.                                       *)
+(* row with that stream not a terminal.  A row is the settings an appender is *)
+(* built with, not the order in which a builder was given them: the replay    *)
+(* names the target before tty_only in half of its variants and after it in   *)
+(* the other half.                                                            *)
 (***************************************************************************)
 EXTENDS Integers, Sequences, FiniteSets, TLC
 EnvVals == {"unset", "0", "1"}
